@@ -10,6 +10,7 @@
 import Scico.Proofs.ProxCalcAbs
 import Scico.Proofs.ProxCalc
 import Scico.Proofs.ProxCalcTree
+import Scico.Proofs.ProxCalcTree2
 import Scico.Proofs.FuncEval
 
 namespace Scico.Props.C08
@@ -294,5 +295,91 @@ example : ∃ p, prox zEnv zTree (.blk [[5, 6], [7]]) 1 = .ok p ∧
   exact ⟨p, hpr, C08_tree_sound zEnv zSem zSound zTree _ p one_pos hp hg hls hpr⟩
 
 end nonvacuity_sound
+
+/-! ### round 2: every node kind, any sign of the scales, the model of `conj_prox` -/
+
+/-- **all nestings, `SquaredL2Loss` nodes included**: as `C08_tree_sound`, for trees that may also contain
+    `SquaredL2Loss` nodes with an Identity / Diagonal forward operator (closed-form branch) on real data
+    with weights `≥ 0` (`SqNodesDiag`; what the constructor enforces: `W.diagonal >= 0`).  The value the
+    model of `prox` returns is a proximal point of the denoted functional, where a `SquaredL2Loss` node
+    denotes `s·Σ w_i (y_i − (A x)_i)²`. -/
+theorem C08_tree_sound_with_sql2 (En : Env ℝ) (S : LeafSem) (hS : LeafSound En S) (t : Fn ℝ) (v p : Arg ℝ) {lam : ℝ}
+    (hl : 0 < lam) (hp : hasProx En t = true) (hd : SqNodesDiag En t) (hls : LossScalesPos t)
+    (hr : prox En t v lam = .ok p) :
+    IsProxA (dom En S t) (den En S t) lam v p :=
+  tree_sound_on En S (fun _ l => 0 < l) (SqDiagOk En) (fun i v lam h hi => hS i v lam h hi) (sqL2_diag_sound En S)
+    t v p lam (paramsOk_diag En t lam hd (paramsOk_pos En t lam hl hp hls)) hr
+
+-- non-vacuity: `Separable([SquaredL2Loss(y=[1,5], A=Diagonal([1,3]), W=[2,0], scale=1/2), 2 * zero])`
+example : ∃ p, prox zEnv (.scons (.sqL2 (.arr [1, 5]) (.diag [1, 3]) (some [2, 0]) (1 / 2)) (.scons (.scaled 2 (.leaf 0)) .snil))
+      (.blk [[4, 7], [3]]) 1 = .ok p ∧
+    IsProxA (dom zEnv zSem (.scons (.sqL2 (.arr [1, 5]) (.diag [1, 3]) (some [2, 0]) (1 / 2)) (.scons (.scaled 2 (.leaf 0)) .snil)))
+      (den zEnv zSem (.scons (.sqL2 (.arr [1, 5]) (.diag [1, 3]) (some [2, 0]) (1 / 2)) (.scons (.scaled 2 (.leaf 0)) .snil)))
+      1 (.blk [[4, 7], [3]]) p := by
+  have zSound : LeafSound zEnv zSem := fun _ v lam _ _ => isProxA_zero lam v
+  have hr : prox zEnv (.scons (.sqL2 (.arr [1, 5]) (.diag [1, 3]) (some [2, 0]) (1 / 2)) (.scons (.scaled 2 (.leaf 0)) .snil))
+      (.blk [[4, 7], [3]]) 1 = .ok (.blk [sqL2DiagProx false (1 / 2) 1 (some [2, 0]) [1, 3] [1, 5] [4, 7], [3]]) := by
+    simp [prox, zEnv, diagOf, bind, Except.bind, pure, Except.pure]
+  refine ⟨_, hr, C08_tree_sound_with_sql2 zEnv zSem zSound _ _ _ one_pos (by simp [hasProx, zEnv]) ?_ (by simp [LossScalesPos]) hr⟩
+  refine ⟨⟨rfl, ⟨[1, 5], rfl, fun wl h => ?_⟩, Or.inr ⟨_, rfl⟩⟩, trivial, trivial⟩
+  simp only [Option.some.injEq] at h
+  subst h
+  exact ⟨rfl, by simp⟩
+
+/-- **no hypothesis on the signs of the scales**: whatever `prox` returns (flag set or cleared, scales of
+    either sign) is a proximal point of the denoted functional *provided the base functionals' proximal
+    maps are proximal maps at the parameters they are actually called with* (`ParamsOk` collects them:
+    `lam·c` below a `ScaledFunctional`, `scale·lam` below a `Loss`).  So a non-positive scale is harmful
+    exactly because it hands a non-positive parameter to a base prox, which is outside its contract (C02
+    is about `lam > 0`).  `C08_tree_sound*` are the instances "positive parameters". -/
+theorem C08_tree_sound_any_scale (En : Env ℝ) (S : LeafSem) (ok : Nat → ℝ → Prop)
+    (okQ : Arg ℝ → OpK ℝ → Option (List ℝ) → ℝ → ℝ → Prop) (hS : LeafSoundOn En S ok) (hQ : SqSoundOn En S okQ)
+    (t : Fn ℝ) (v p : Arg ℝ) (lam : ℝ) (hok : ParamsOk ok okQ t lam) (hr : prox En t v lam = .ok p) :
+    IsProxA (dom En S t) (den En S t) lam v p :=
+  tree_sound_on En S ok okQ hS hQ t v p lam hok hr
+
+-- non-vacuity: the zero functional's prox (identity) is a proximal map for every parameter, so the tree
+-- `(-2) * Loss(y, f=zero, scale=-3)` (flag cleared) still returns proximal points of `(-2)·(-3)·0`
+example : IsProxA (dom zEnv zSem (.scaled (-2) (.loss (.arr [1, 2]) none (.leaf 0) (-3))))
+    (den zEnv zSem (.scaled (-2) (.loss (.arr [1, 2]) none (.leaf 0) (-3)))) 1 (.arr [5, 6]) (.arr [5, 6]) := by
+  refine C08_tree_sound_any_scale zEnv zSem (fun _ _ => True) (fun _ _ _ _ _ => False)
+    (fun _ v lam _ _ => isProxA_zero lam v) (fun _ _ _ _ _ _ _ h _ => h.elim) _ _ _ 1 trivial ?_
+  simp [prox, hasProx, zEnv, Arg.sub, Arg.add, Arg.zip, zipSame, Except.map, bind, Except.bind]
+
+/-- **the flag of a `Loss` does not look at its scale** (known finding `loss-nonpositive-scale`, recorded,
+    patch `fixes/loss-nonpositive-scale.patch` not applied): `has_prox` of `Loss(y, A, f, scale)` is the same
+    for every `scale` (first conjunct), and for `Loss(y=[0], f=L1Norm(), scale=−1)` the flag is set, the
+    model of `prox([0], 1)` returns `[0]` (`L1Norm.prox` called with parameter `−1`), but `[0]` is not a
+    proximal point of `x ↦ −|x|` (`−|x| + x²/2` is `−1/2` at `x = 1`).  This is why `C08_tree_sound` keeps the
+    hypothesis `LossScalesPos`. -/
+theorem C08_loss_nonpositive_counterexample :
+    (∀ (En : Env ℝ) (y : Arg ℝ) (A : Option Nat) (f : Fn ℝ) (s s' : ℝ),
+      hasProx En (.loss y A f s) = hasProx En (.loss y A f s')) ∧
+    hasProx l1Env (.loss (.arr [0]) none (.leaf 0) (-1)) = true ∧
+    prox l1Env (.loss (.arr [0]) none (.leaf 0) (-1)) (.arr [0]) 1 = .ok (.arr [0]) ∧
+    ¬ IsProxA (fun _ => True) (fun x => (-1) * l1 false x) 1 (.arr [0]) (.arr [0]) :=
+  ⟨fun En y A f s s' => hasProx_loss_scale En y A f s s', loss_nonpos_counterexample⟩
+
+/-- with the rule of the proposed repair (`hasProxR`: a `Loss` advertises its prox only while its scale is
+    positive) a set flag alone suffices — no hypothesis on the scales is left -/
+theorem C08_tree_sound_repaired_flag (En : Env ℝ) (S : LeafSem) (hS : LeafSound En S) (t : Fn ℝ) (v p : Arg ℝ) {lam : ℝ}
+    (hl : 0 < lam) (hp : hasProxR En t = true) (hd : SqNodesDiag En t) (hr : prox En t v lam = .ok p) :
+    IsProxA (dom En S t) (den En S t) lam v p ∧ hasProx En t = true :=
+  ⟨tree_sound_on En S (fun _ l => 0 < l) (SqDiagOk En) (fun i v lam h hi => hS i v lam h hi) (sqL2_diag_sound En S)
+    t v p lam (paramsOk_diag En t lam hd (paramsOk_of_hasProxR En t lam hl hp)) hr, hasProx_of_hasProxR En t hp⟩
+
+example : hasProxR zEnv zTree = true := by simp [zTree, hasProxR, zEnv]
+example : hasProxR l1Env (.loss (.arr [0]) none (.leaf 0) (-1)) = false := by simp [hasProxR]
+
+/-- the model of `Functional.conj_prox` is `v − lam · prox(v / lam, 1 / lam)` (so `C08_moreau` applies to
+    it with `q` the value of the inner `prox` call) -/
+theorem C08_conj_prox_model {α : Type} [Add α] [Sub α] [Mul α] [Div α] [Neg α] [Zero α] [One α] [LT α] [DecidableLT α]
+    [HasSqrt α] (En : Env α) (t : Fn α) (v r : Arg α) (lam : α) (h : conjProx En t v lam = .ok r) :
+    ∃ q, prox En t (Arg.map (· / lam) v) (1 / lam) = .ok q ∧ Arg.sub v (Arg.smul lam q) = .ok r :=
+  conjProx_eq En t v r lam h
+
+example : conjProx exEnv (.leaf 0) (.arr [4, 6]) 2 = .ok (.arr [0, 0]) := by
+  simp [conjProx, prox, exEnv, Arg.map, Arg.smul, Arg.sub, Arg.zip, zipSame, Except.map, bind, Except.bind]
+  norm_num
 
 end Scico.Props.C08
